@@ -162,7 +162,12 @@ def run(ck):
         # numpy agreement (measured)
         if X is not None and not singular:
             ck.search_evaluations += 1
-            Xn = np.linalg.inv(A)
+            try:
+                Xn = np.linalg.inv(A)
+            except np.linalg.LinAlgError:
+                # numpy (double precision LU) gives up on a regular but ill-conditioned matrix: nothing to compare
+                ck.discard('numpy.linalg.inv raised on a regular ill-conditioned matrix')
+                continue
             cond = np.linalg.norm(A, np.inf) * np.linalg.norm(Xn, np.inf)
             if not np.all(np.abs(np.asarray(X, dtype=float) - Xn) <= 64 * n * cond * 2.0 ** -52 *
                           np.linalg.norm(Xn, np.inf)):
